@@ -226,6 +226,7 @@ fn build_binary_op(
             (false, false) => quote!(#ty : #trait_<#ty, Output = #ty>),
         });
         quote! {
+            #[allow(deprecated, non_camel_case_types, non_snake_case, non_upper_case_globals)]
             #[automatically_derived]
             impl #impl_g #trait_<#rhs_ty> for #self_ty #wheres {
                 type Output = #this_ty;
@@ -277,6 +278,7 @@ fn build_assign_op(
             false => parse_quote!(#ty : #trait_<#ty>),
         });
         quote! {
+            #[allow(deprecated, non_camel_case_types, non_snake_case, non_upper_case_globals)]
             #[automatically_derived]
             impl #impl_g #trait_<#rhs_ty> for #this_ty #wheres {
                 fn #func_name(&mut self, __rhs: #rhs_ty) {
@@ -325,6 +327,7 @@ fn build_unary_op(
             false => quote!(#ty : #trait_<Output = #ty>),
         });
         quote! {
+            #[allow(deprecated, non_camel_case_types, non_snake_case, non_upper_case_globals)]
             #[automatically_derived]
             impl #impl_g #trait_ for #self_ty #wheres {
                 type Output = #this_ty;
@@ -367,6 +370,7 @@ fn build_clone_for_struct(
     let ctor_args = build_ctor_args(&item.fields, &ctor_args);
     let wheres = wcb.build(|ty| quote!(#ty : #trait_));
     Ok(quote! {
+        #[allow(deprecated, non_camel_case_types, non_snake_case, non_upper_case_globals)]
         #[automatically_derived]
         impl #impl_g #trait_ for #this_ty #wheres {
             fn clone(&self) -> Self {
@@ -432,6 +436,7 @@ fn build_clone_for_enum(
         quote!(match self { #(#arms_clone,)* })
     };
     Ok(quote! {
+        #[allow(deprecated, non_camel_case_types, non_snake_case, non_upper_case_globals)]
         #[automatically_derived]
         impl #impl_g #trait_ for #this_ty #wheres {
             fn clone(&self) -> Self {
@@ -464,6 +469,7 @@ fn build_copy_for_struct(
     }
     let wheres = wcb.build(|ty| quote!(#ty : #trait_));
     Ok(quote! {
+        #[allow(deprecated, non_camel_case_types, non_snake_case, non_upper_case_globals)]
         #[automatically_derived]
         impl #impl_g #trait_ for #this_ty #wheres {}
     })
@@ -491,6 +497,7 @@ fn build_copy_for_enum(
     }
     let wheres = wcb.build(|ty| quote!(#ty : #trait_));
     Ok(quote! {
+        #[allow(deprecated, non_camel_case_types, non_snake_case, non_upper_case_globals)]
         #[automatically_derived]
         impl #impl_g #trait_ for #this_ty #wheres {}
     })
@@ -529,6 +536,7 @@ fn build_debug_for_struct(
     )?;
     let wheres = wcb.build(|ty| quote!(#ty : #trait_));
     Ok(quote! {
+        #[allow(deprecated, non_camel_case_types, non_snake_case, non_upper_case_globals)]
         #[automatically_derived]
         impl #impl_g #trait_ for #this_ty #wheres {
             fn fmt(&self, __f: &mut ::core::fmt::Formatter) -> ::core::fmt::Result {
@@ -614,6 +622,7 @@ fn build_debug_for_enum(
         quote!(match self { #(#arms,)* })
     };
     Ok(quote! {
+        #[allow(deprecated, non_camel_case_types, non_snake_case, non_upper_case_globals)]
         #[automatically_derived]
         impl #impl_g #trait_ for #this_ty #wheres {
             fn fmt(&self, __f: &mut ::core::fmt::Formatter) -> ::core::fmt::Result {
@@ -710,6 +719,7 @@ fn build_default_for_struct(
     };
     let wheres = wcb.build(|ty| quote!(#ty : #trait_));
     Ok(quote! {
+        #[allow(deprecated, non_camel_case_types, non_snake_case, non_upper_case_globals)]
         #[automatically_derived]
         impl #impl_g #trait_ for #this_ty #wheres {
             fn default() -> Self {
@@ -781,6 +791,7 @@ fn build_default_for_enum(
     };
     let wheres = wcb.build(|ty| quote!(#ty : #trait_));
     Ok(quote! {
+        #[allow(deprecated, non_camel_case_types, non_snake_case, non_upper_case_globals)]
         #[automatically_derived]
         impl #impl_g #trait_ for #this_ty #wheres {
             fn default() -> Self {
@@ -859,6 +870,7 @@ fn build_deref_for_struct(
 
     let wheres = wcb.build(|ty| quote!(#ty : #trait_));
     Ok(quote! {
+        #[allow(deprecated, non_camel_case_types, non_snake_case, non_upper_case_globals)]
         #[automatically_derived]
         impl #impl_g #trait_ for #this_ty #wheres {
             #content
